@@ -30,6 +30,7 @@ import (
 	"strconv"
 	"strings"
 	"sync"
+	"sync/atomic"
 	"testing"
 	"time"
 
@@ -61,6 +62,25 @@ func vc01Handler() Handler {
 
 		if !strings.HasSuffix(si.Name, "-"+si.Proto.String()) {
 			panic(fmt.Sprintf("vc01: server %q reports protocol %s", si.Name, si.Proto))
+		}
+
+		if hook := vc01LateHook.Load(); hook != nil && vc01IsLate(req) {
+			// A slow pipeline whose answer is written after the request's deadline;
+			// the test owns the interleaving with the normal query in flight.
+			hook.once(hook.reached)
+			<-hook.normalSet
+			if hook.waitForCtx {
+				// The handler gives up with the request time-out; the server then
+				// writes its SERVFAIL with the expired context.
+				<-ctx.Done()
+
+				return ctx.Err()
+			}
+
+			ectx, cancel := context.WithDeadline(ctx, time.Now().Add(-time.Second))
+			defer cancel()
+
+			return rw.WriteMsg(ectx, req, (&dns.Msg{}).SetReply(req))
 		}
 
 		vc01Seen.Store(vc01SeenKey(req), req.Copy())
@@ -133,6 +153,10 @@ func (m *vc01Metrics) note(format string, a ...any) {
 }
 
 func (m *vc01Metrics) OnRequest(_ context.Context, info *QueryInfo, rw ResponseWriter) {
+	if hook := vc01LateHook.Load(); hook != nil && info != nil && info.Request != nil && vc01IsLate(info.Request) {
+		hook.once(hook.lateDone)
+	}
+
 	switch {
 	case info == nil || info.Request == nil || rw == nil:
 		m.note("OnRequest without request or writer: %+v", info)
@@ -973,5 +997,284 @@ func FuzzVerifC01Accept(f *testing.F) {
 		}
 
 		vc01FramingCase(t, st, fix, ref.Input{Wire: wire, Gen: "fuzz"}, p)
+	})
+}
+
+// ---------------------------------------------------------------------------
+// (4) one shared UDP socket, two responses in flight, one of them written with
+// an expired context: the interleaving is owned by the in-memory connection.
+
+func vc01IsLate(m *dns.Msg) bool {
+	return len(m.Question) == 1 && strings.HasPrefix(strings.ToLower(m.Question[0].Name), "late-")
+}
+
+// vc01KnownSharedDeadline is the finding: a response written with an expired
+// context puts a past write deadline on the server's one shared UDP socket, and
+// a concurrent write of another query's response fails.
+const vc01KnownSharedDeadline = "udp-shared-socket-write-deadline"
+
+// vc01LateCtl synchronises the late handler, the normal writer and the
+// connection.
+type vc01LateCtl struct {
+	waitForCtx bool
+
+	mu        sync.Mutex
+	closed    map[chan struct{}]bool
+	reached   chan struct{} // the late handler is about to write
+	normalSet chan struct{} // the normal writer has set its (future) deadline
+	latePast  chan struct{} // a past deadline has been put on the socket
+	lateDone  chan struct{} // the late request has been processed completely
+	nAttempt  chan struct{} // the normal writer has attempted its write
+}
+
+func vc01NewLateCtl(waitForCtx bool) *vc01LateCtl {
+	return &vc01LateCtl{waitForCtx: waitForCtx, closed: map[chan struct{}]bool{}, reached: make(chan struct{}), normalSet: make(chan struct{}),
+		latePast: make(chan struct{}), lateDone: make(chan struct{}), nAttempt: make(chan struct{})}
+}
+
+func (h *vc01LateCtl) once(c chan struct{}) {
+	h.mu.Lock()
+	defer h.mu.Unlock()
+
+	if !h.closed[c] {
+		h.closed[c] = true
+		close(c)
+	}
+}
+
+var vc01LateHook atomic.Pointer[vc01LateCtl]
+
+// vc01DLConn is an in-memory packet connection that models the write deadline
+// of a socket: it is ONE value shared by all writers, and a write attempted
+// while it lies in the past fails with a time-out.
+type vc01DLConn struct {
+	net.PacketConn
+
+	hook *vc01LateCtl
+
+	mu          sync.Mutex
+	in          [][]byte
+	out         [][]byte
+	deadline    time.Time
+	futureSeen  bool
+	stuck       bool
+	pastWrites  int
+	failedOther int
+}
+
+func (c *vc01DLConn) ReadFrom(b []byte) (int, net.Addr, error) {
+	c.mu.Lock()
+	defer c.mu.Unlock()
+
+	if len(c.in) == 0 {
+		return 0, nil, io.EOF
+	}
+
+	n := copy(b, c.in[0])
+	c.in = c.in[1:]
+
+	return n, vc01RemoteUDP, nil
+}
+
+func (c *vc01DLConn) LocalAddr() net.Addr             { return vc01LocalUDP }
+func (c *vc01DLConn) SetReadDeadline(time.Time) error { return nil }
+func (c *vc01DLConn) Close() error                    { return nil }
+
+func (c *vc01DLConn) wait(chs ...chan struct{}) {
+	t := time.NewTimer(30 * time.Second)
+	defer t.Stop()
+
+	switch len(chs) {
+	case 1:
+		select {
+		case <-chs[0]:
+		case <-t.C:
+			c.mu.Lock()
+			c.stuck = true
+			c.mu.Unlock()
+		}
+	default:
+		select {
+		case <-chs[0]:
+		case <-chs[1]:
+		case <-t.C:
+			c.mu.Lock()
+			c.stuck = true
+			c.mu.Unlock()
+		}
+	}
+}
+
+func (c *vc01DLConn) SetWriteDeadline(t time.Time) error {
+	c.mu.Lock()
+	c.deadline = t
+	past := !t.IsZero() && !t.After(time.Now())
+	first := !t.IsZero() && !past && !c.futureSeen
+	if first {
+		c.futureSeen = true
+	}
+	c.mu.Unlock()
+
+	if past {
+		c.hook.once(c.hook.latePast)
+	}
+
+	if first {
+		// The normal writer has set its deadline and is about to write: let the
+		// late response be written now, i.e. between this writer's
+		// SetWriteDeadline and its write -- nothing in the server orders the two.
+		c.hook.once(c.hook.normalSet)
+		c.wait(c.hook.latePast, c.hook.lateDone)
+	}
+
+	return nil
+}
+
+func (c *vc01DLConn) WriteTo(b []byte, _ net.Addr) (int, error) {
+	m := &dns.Msg{}
+	late := m.Unpack(b) == nil && vc01IsLate(m)
+	if !late {
+		c.hook.once(c.hook.nAttempt)
+	}
+
+	c.mu.Lock()
+	dl := c.deadline
+	expired := !dl.IsZero() && !dl.After(time.Now())
+	if expired {
+		c.pastWrites++
+		if !late {
+			c.failedOther++
+		}
+	} else {
+		c.out = append(c.out, append([]byte(nil), b...))
+	}
+	c.mu.Unlock()
+
+	if expired {
+		if late {
+			// Keep the past deadline on the socket until the normal writer has
+			// tried to write (the late writer resets the deadline on return).
+			c.wait(c.hook.nAttempt)
+		}
+
+		return 0, os.ErrDeadlineExceeded
+	}
+
+	return len(b), nil
+}
+
+// vc01FirstShort is a ContextConstructor whose first context (the late
+// request's) has a short time-out and all later ones a long one.
+type vc01FirstShort struct{ n atomic.Int32 }
+
+func (c *vc01FirstShort) New() (context.Context, context.CancelFunc) {
+	if c.n.Add(1) == 1 {
+		return context.WithTimeout(context.Background(), 20*time.Millisecond)
+	}
+
+	return context.WithTimeout(context.Background(), time.Minute)
+}
+
+func TestVerifC01UDPSharedDeadline(t *testing.T) {
+	st := vstat.New("C01", "inpkg.udp-shared-socket",
+		"rapid (a valid query that must be answered over UDP, at most 512 octets; how the late answer comes about: the handler writes with an already expired context, or waits for the request time-out and returns ctx.Err() so that the server writes its SERVFAIL with the expired context) through ServerDNS.acceptUDPMsg on ONE in-memory packet connection that models the socket's single write deadline; the connection owns the interleaving: the late write's SetWriteDeadline falls between the normal writer's SetWriteDeadline and its write; oracle for the normal query unchanged (exactly one answer equal to the reference answer), the late query is not judged beyond at most one response; non-trivial = every case; distinct by (style, wire)",
+		"udp:normal-query-in-flight-with-expired-context-write", "late-handler-writes-with-expired-context", "late-server-servfail-after-timeout")
+	st.Finish(t)
+
+	rapid.Check(t, func(t *rapid.T) {
+		var c *ref.Case
+		for i := 0; ; i++ {
+			m := ref.DrawQuery(t)
+			w, err := m.Pack()
+			if err != nil {
+				t.Fatalf("harness: %v", err)
+			}
+
+			c = ref.Classify(w)
+			if k, _, _ := c.Expect(ref.UDP); k == ref.MustReply && len(w) <= dns.MinMsgSize && !c.Loose {
+				break
+			}
+
+			if i == 20 {
+				t.Skip("no answerable query drawn")
+			}
+		}
+
+		waitForCtx := rapid.Bool().Draw(t, "lateByTimeout")
+		style := "late-handler-writes-with-expired-context"
+		if waitForCtx {
+			style = "late-server-servfail-after-timeout"
+		}
+
+		hook := vc01NewLateCtl(waitForCtx)
+		vc01LateHook.Store(hook)
+		defer vc01LateHook.Store(nil)
+
+		metrics := &vc01Metrics{}
+		conf := vc01RealBase("verif-c01-dns", metrics)
+		conf.RequestContext = &vc01FirstShort{}
+		s := NewServerDNS(ConfigDNS{ConfigBase: conf, MaxUDPRespSize: dns.MaxMsgSize})
+		lm := (&dns.Msg{}).SetQuestion("late-0.k0.test.", dns.TypeA)
+		lm.Id = c.Req.Id + 1
+		lw, _ := lm.Pack()
+		conn := &vc01DLConn{hook: hook, in: [][]byte{lw, c.Wire}}
+
+		// The late query first, up to the point where its answer is about to be
+		// written; then the normal one.
+		if err := s.acceptUDPMsg(context.Background(), conn); err != nil {
+			t.Fatalf("acceptUDPMsg: %v", err)
+		}
+
+		conn.wait(hook.reached)
+		if err := s.acceptUDPMsg(context.Background(), conn); err != nil {
+			t.Fatalf("acceptUDPMsg: %v", err)
+		}
+
+		s.wg.Wait()
+		s.workerPool.Release()
+		conn.mu.Lock()
+		stuck, out, failedOther := conn.stuck, conn.out, conn.failedOther
+		conn.mu.Unlock()
+		if stuck {
+			fmt.Println("VERIF-INCONCLUSIVE: the owned interleaving did not complete in 30 s")
+			t.FailNow()
+		}
+
+		var normal [][]byte
+		lateN := 0
+		for _, b := range out {
+			m := &dns.Msg{}
+			if m.Unpack(b) == nil && vc01IsLate(m) {
+				lateN++
+
+				continue
+			}
+
+			normal = append(normal, b)
+		}
+
+		classes := append(c.Classes(), "udp:normal-query-in-flight-with-expired-context-write", style)
+		_, _, err := ref.Judge(ref.UDP, c, ref.Result{Msgs: normal}, ref.CheckOpts{})
+		if err == nil && lateN > 1 {
+			err = fmt.Errorf("the late query was answered %d times", lateN)
+		}
+
+		if err == nil {
+			if errs := metrics.take(); len(errs) > 0 {
+				err = fmt.Errorf("%s", strings.Join(errs, "\n"))
+			}
+		}
+
+		if err != nil && failedOther > 0 && st.Known(vc01KnownSharedDeadline) {
+			st.Case(style+"|"+string(c.Wire), append(classes, "known-finding")...)
+
+			return
+		}
+
+		st.Case(style+"|"+string(c.Wire), classes...)
+		if err != nil {
+			t.Fatalf("history: [recv late query id=%d (%s); its answer is about to be written] [recv normal query %s] [normal writer: SetWriteDeadline(future)] [late writer: SetWriteDeadline(past)] [normal writer: write -> time-out: %d] [late writer: write -> time-out, SetWriteDeadline(zero)]\nnormal query outcome: %v",
+				lm.Id, style, ref.Hex(c.Wire), failedOther, err)
+		}
 	})
 }
